@@ -80,7 +80,7 @@ fn point(_name: &'static str) {
             CV.notify_all();
             return;
         }
-        let (ng, timeout) = CV.wait_timeout(g, Duration::from_millis(250)).unwrap();
+        let (ng, timeout) = CV.wait_timeout(g, Duration::from_millis(80)).unwrap();
         g = ng;
         if timeout.timed_out() {
             // the granted thread is blocked on something else: give up on the schedule (reported in the trace)
@@ -522,12 +522,172 @@ fn run_corerace(prog: Prog, pre: &[CAct], acts: &[CAct], order: Vec<usize>) -> O
     ))
 }
 
+// ---------------------------------------------------------------- bridgerace scenario (several threads on one Bridge)
+
+fn run_bridgerace(prog: Prog, pre: &[CAct], acts: &[CAct], order: Vec<usize>) -> Option<String> {
+    use crux_core::bridge::{Bridge, BridgeError};
+    use std::sync::atomic::Ordering::SeqCst;
+    type FfiReq = crux_core::bridge::Request<EffectFfi>;
+    *PROGRAM.lock().unwrap() = prog;
+    IN_UPDATE.store(false, SeqCst);
+    CONCURRENT_UPDATE.store(false, SeqCst);
+    let bridge: Bridge<ConcApp> = Bridge::new(crux_core::Core::new());
+    let kind_of = |reg: &[(u32, &'static str)], id: u32| {
+        reg.iter().find(|(i, _)| *i == id).map(|(_, k)| kind_char(k)).unwrap_or('?')
+    };
+    let mut ids: Vec<u32> = vec![];
+    let mut latest: std::collections::HashMap<u32, usize> = Default::default();
+    let keys_of = |b: &Bridge<ConcApp>, bytes: &[u8]| -> Vec<(u32, i64, char, u32)> {
+        let reqs: Vec<FfiReq> = bincode::deserialize(bytes).expect("decode requests");
+        let reg = b.verif_registry();
+        let mut v: Vec<(u32, i64, char, u32)> = reqs
+            .iter()
+            .map(|r| {
+                let EffectFfi::Cap(op) = &r.effect;
+                (op.n, op.v, kind_of(&reg, r.id.0), r.id.0)
+            })
+            .collect();
+        v.sort_by_key(|x| (x.0, x.1, x.2));
+        v
+    };
+    fn record(v: &[(u32, i64, char, u32)], ids: &mut Vec<u32>, latest: &mut std::collections::HashMap<u32, usize>) {
+        for x in v {
+            latest.insert(x.3, ids.len());
+            ids.push(x.3);
+        }
+    }
+    let probe_bytes = bincode::serialize(&Event { tag: PROBE_TAG, v: 0 }).unwrap();
+    let err_class = |e: &BridgeError| match e {
+        BridgeError::DeserializeEvent(_) => "err:deser-event",
+        BridgeError::DeserializeOutput(_) => "err:deser-output",
+        BridgeError::ProcessResponse(crux_core::ResolveError::Never) => "err:never",
+        BridgeError::ProcessResponse(crux_core::ResolveError::FinishedMany) => "err:finished",
+        _ => "err:other",
+    };
+    for a in pre {
+        match a {
+            CAct::Ev(t, v) => {
+                let out = bridge.process_event(&bincode::serialize(&Event { tag: *t, v: *v }).unwrap()).ok()?;
+                record(&keys_of(&bridge, &out), &mut ids, &mut latest);
+            }
+            CAct::Res(k, v) => {
+                if let Some(id) = ids.get(*k).copied() {
+                    let live = latest.get(&id) == Some(k) && bridge.verif_registry().iter().any(|(i, _)| *i == id);
+                    if live {
+                        if let Ok(out) = bridge.handle_response(id, &bincode::serialize(v).unwrap()) {
+                            record(&keys_of(&bridge, &out), &mut ids, &mut latest);
+                        }
+                    }
+                }
+            }
+            CAct::View => {
+                let _ = bridge.view();
+            }
+        }
+        let out = bridge.process_event(&probe_bytes).ok()?;
+        record(&keys_of(&bridge, &out), &mut ids, &mut latest);
+    }
+    // liveness of the addressed ids is decided before the race; two threads may address the same id only if it is a stream
+    let reg0 = bridge.verif_registry();
+    let mut seen_k: Vec<usize> = vec![];
+    let plan: Vec<Result<Option<u32>, &'static str>> = acts
+        .iter()
+        .map(|a| match a {
+            CAct::Res(k, _) => match ids.get(*k).copied() {
+                None => Err("noreq"),
+                Some(id) => {
+                    let live = latest.get(&id) == Some(k) && reg0.iter().any(|(i, _)| *i == id);
+                    if !live {
+                        Err("stale")
+                    } else if seen_k.contains(k) && kind_of(&reg0, id) != 'm' {
+                        Err("dup-skipped")
+                    } else {
+                        seen_k.push(*k);
+                        Ok(Some(id))
+                    }
+                }
+            },
+            _ => Ok(None),
+        })
+        .collect();
+    let n = acts.len();
+    let mut results: Vec<(String, Vec<u8>)> = (0..n).map(|_| (String::new(), vec![])).collect();
+    let bref = &bridge;
+    let ((), _trace, stuck) = with_schedule(order, n, || {
+        std::thread::scope(|s| {
+            for (i, ((a, slot), pl)) in acts.iter().zip(results.iter_mut()).zip(plan.iter()).enumerate() {
+                s.spawn(move || {
+                    as_thread(i, || match (a, pl) {
+                        (_, Err(c)) => slot.0 = (*c).into(),
+                        (CAct::Ev(t, v), _) => {
+                            match bref.process_event(&bincode::serialize(&Event { tag: *t, v: *v }).unwrap()) {
+                                Ok(b) => {
+                                    slot.0 = "ok".into();
+                                    slot.1 = b;
+                                }
+                                Err(e) => slot.0 = err_class(&e).into(),
+                            }
+                        }
+                        (CAct::View, _) => {
+                            let _ = bref.view();
+                            slot.0 = "-".into();
+                        }
+                        (CAct::Res(_, v), Ok(Some(id))) => match bref.handle_response(*id, &bincode::serialize(v).unwrap()) {
+                            Ok(b) => {
+                                slot.0 = "ok".into();
+                                slot.1 = b;
+                            }
+                            Err(e) => slot.0 = err_class(&e).into(),
+                        },
+                        _ => slot.0 = "?".into(),
+                    })
+                });
+            }
+        });
+    });
+    let mut union: Vec<(u32, i64, char)> = vec![];
+    for r in &results {
+        if r.0 == "ok" && !r.1.is_empty() {
+            union.extend(keys_of(&bridge, &r.1).iter().map(|x| (x.0, x.1, x.2)));
+        }
+    }
+    union.sort();
+    let pout = bridge.process_event(&probe_bytes).ok()?;
+    let probe: Vec<(u32, i64, char)> = keys_of(&bridge, &pout).iter().map(|x| (x.0, x.1, x.2)).collect();
+    let view: Vec<Event> = bincode::deserialize(&bridge.view().ok()?).ok()?;
+    let mut log: Vec<(u32, i64)> = view.iter().filter(|e| e.tag != PROBE_TAG).map(|e| (e.tag, e.v)).collect();
+    log.sort();
+    let mut regk: Vec<char> = bridge.verif_registry().iter().map(|(_, k)| kind_char(k)).collect();
+    regk.sort();
+    let (tasks, ready, spawn, requests, events) = bridge.verif_stats();
+    Some(format!(
+        "R[{}] E{{{}}} P{{{}}} L{{{}}} G[{}] s{} q{}.{}.{}.{}{}{}",
+        results.iter().map(|r| r.0.clone()).collect::<Vec<_>>().join(","),
+        union.iter().map(|(n, v, k)| format!("{n}:{v}:{k}")).collect::<Vec<_>>().join(","),
+        probe.iter().map(|(n, v, k)| format!("{n}:{v}:{k}")).collect::<Vec<_>>().join(","),
+        log.iter().map(|(t, v)| format!("{t}:{v}")).collect::<Vec<_>>().join(","),
+        regk.iter().collect::<String>(),
+        tasks,
+        ready,
+        spawn,
+        requests,
+        events,
+        if CONCURRENT_UPDATE.load(SeqCst) { " CONCURRENT-UPDATE" } else { "" },
+        if stuck { " STUCK" } else { "" }
+    ))
+}
+
 fn run_case(line: &str) -> Option<String> {
     let s = sexp::parse(line)?;
     let (kind, args) = s.form()?;
     let order_of = |o: &Sexp| -> Option<Vec<usize>> { o.as_list()?.iter().map(|x| x.num()).collect() };
     match (kind, args) {
         ("evict", [n, order]) => Some(run_evict(n.num()?, order_of(order)?)),
+        ("bridgerace", [prog, pre, acts, order]) => {
+            let pre: Vec<CAct> = pre.as_list()?.iter().map(parse_cact).collect::<Option<_>>()?;
+            let acts: Vec<CAct> = acts.as_list()?.iter().map(parse_cact).collect::<Option<_>>()?;
+            run_bridgerace(parse_prog(prog)?, &pre, &acts, order_of(order)?)
+        }
         ("corerace", [prog, pre, acts, order]) => {
             let pre: Vec<CAct> = pre.as_list()?.iter().map(parse_cact).collect::<Option<_>>()?;
             let acts: Vec<CAct> = acts.as_list()?.iter().map(parse_cact).collect::<Option<_>>()?;
@@ -661,6 +821,50 @@ fn gen_race(seed: u64, n: usize) {
     }
 }
 
+fn gen_bridgerace(seed: u64, n: usize) {
+    use harness::gen::Gen;
+    let out = std::io::stdout();
+    let mut out = std::io::BufWriter::new(out.lock());
+    let mut g = Gen {
+        r: Rng::new(seed),
+        next_handle: 0,
+        next_abort: 0,
+        emit_tags: vec![10, 11],
+        allow_abortable: false,
+        unique_ops: true,
+        next_op: 0,
+    };
+    for _ in 0..n {
+        g.next_handle = 0;
+        g.next_op = 0;
+        // tag 1: a stream subscription (plus sometimes something else), so that several responses may address one id
+        let sub = Cmd::Stream(g.opn(), Expr::Lit(0), 10);
+        let c1 = if g.r.chance(1, 2) { sub } else { Cmd::And(Box::new(sub), Box::new(g.cmd(2, 4, 4))) };
+        let mut prog = vec![list(vec![atom(1), c1.sexp()])];
+        if g.r.chance(1, 2) {
+            g.emit_tags = vec![10, 11];
+            prog.push(list(vec![atom(2), g.cmd(2, 4, 4).sexp()]));
+        }
+        let mut pre = vec![list(vec![atom("ev"), atom(1), atom(0)])];
+        if g.r.chance(1, 2) {
+            pre.push(list(vec![atom("res"), atom(g.r.below(2)), atom(100)]));
+        }
+        let nthreads = 2 + g.r.below(2);
+        let mut acts = vec![];
+        for i in 0..nthreads {
+            acts.push(match g.r.below(6) {
+                0 => list(vec![atom("ev"), atom(1 + g.r.below(2)), atom(5 + i)]),
+                // mostly responses, often to the same (first) request
+                _ => list(vec![atom("res"), atom(if g.r.chance(2, 3) { 0 } else { g.r.below(3) }), atom(200 + i)]),
+            });
+        }
+        let len = 6 + g.r.below(24);
+        let order: Vec<usize> = (0..len).map(|_| g.r.below(nthreads) as usize).collect();
+        let line = list(vec![atom("bridgerace"), list(prog), list(pre), list(acts), order_sexp(&order)]);
+        writeln!(out, "{line}").unwrap();
+    }
+}
+
 fn gen_corerace(seed: u64, n: usize) {
     use harness::gen::Gen;
     let out = std::io::stdout();
@@ -727,6 +931,7 @@ fn main() {
             match args.get(4).map(String::as_str).unwrap_or("evict") {
                 "evict" => gen_evict(seed, n),
                 "corerace" => gen_corerace(seed, n),
+                "bridgerace" => gen_bridgerace(seed, n),
                 _ => gen_race(seed, n),
             }
         }
